@@ -62,4 +62,23 @@ PROPERTIES = {
             {"name": "c18_toolbox_san", "src": "c18_toolbox_color.cpp", "mode": "asan", "flags": ['-DVERIF_TARGET_NAME="c18_toolbox_san"', "-DVERIF_STRIDE=16"], "subtargets": [], "threads": 8, "subset": True},
         ],
     },
+    "C01": {
+        "level": "exploration",
+        "assumptions": [
+            "accesses are generated in range only; one-past-the-end iterators are formed (row_end, end()) but never dereferenced",
+            "pointer arithmetic on the null pointer of an empty, never dereferenced view (UBSan pointer-overflow check) is not counted: that check is disabled",
+            "caller-supplied buffers respect the pixel type's alignment (row size kept a multiple of alignof(pixel))",
+        ],
+        "targets": [{"name": "c01_access_g%d" % g, "src": "c01_access.cpp", "mode": "asan", "rapidcheck": True,
+                     "flags": ["-DVL_GROUP=%d" % g, '-DVERIF_TARGET_NAME="c01_access_g%d"' % g], "subtargets": ["access"], "group": g} for g in range(4)],
+    },
+    "C02": {
+        "level": "exploration",
+        "assumptions": [
+            "subsampled_view steps are >= 1 (asserted precondition); sub-images are generated inside the source view",
+            "color_converted tails are generated only for colour spaces with a default converter; nth/kth_channel tails only for homogeneous pixels",
+        ],
+        "targets": [{"name": "c02_views_g%d" % g, "src": "c02_views.cpp", "mode": "asan", "rapidcheck": True,
+                     "flags": ["-DVL_GROUP=%d" % g, '-DVERIF_TARGET_NAME="c02_views_g%d"' % g], "subtargets": ["views"], "group": g} for g in range(4)],
+    },
 }
